@@ -529,7 +529,11 @@ class SymReal:
         g = ground(s.t)
         if g is not None:
             return hash(g)
-        raise Unsupported("hash(SymReal)")
+        # a symbolic number used as a dict/set key or inside hash(): every symbolic number gets the same hash, so lookups among
+        # symbolic keys fall through to == (a solver-checked fork) and a hash-keyed table is explored on its COLLIDING path (replays use
+        # CPython's real collisions).  Lookups of a symbolic key against ground keys are not modelled (counted in SYMBOLIC_HASHES).
+        SYMBOLIC_HASHES[0] += 1
+        return 0
 
     def __float__(s):
         raise Unsupported("float(SymReal) at C level")
@@ -628,7 +632,8 @@ class SymInt:
         g = ground(s.t)
         if g is not None:
             return hash(int(g))
-        raise Unsupported("hash(SymInt)")
+        SYMBOLIC_HASHES[0] += 1
+        return 0
 
     def __eq__(s, o): return SymBool(z3.ToReal(s.t) == R(o)) if _num(o) else False
     def __ne__(s, o): return SymBool(z3.ToReal(s.t) != R(o)) if _num(o) else True
@@ -717,6 +722,7 @@ class SymComplex:
 
 
 HASH_HOOK = [None]
+SYMBOLIC_HASHES = [0]
 import numbers as _numbers  # noqa: E402
 _numbers.Real.register(SymReal)
 _numbers.Integral.register(SymInt)
